@@ -21,14 +21,15 @@ vars == <<l, st>>
 
 StateOf(j) ==
     [filters |-> j.filters, ff |-> j.fform, form |-> j.form, parms |-> j.parms, length |-> j.length, content |-> j.content,
-     allows |-> j.allows, orc |-> j.orc]
+     allows |-> j.allows, orc |-> j.orc, ind |-> j.ind, abs |-> j.abs]
 
 \* broken clauses in reporting order: generic ones first, so that a recognised regression class in the same
 \* record never masks anything else; the three classes of repaired defects last
 Order == <<"panic", "stream-count", "unknown-op", "length", "set_content", "set_plain_content", "compress.longer",
            "compress.lossy", "decompress.failed", "decompress.content", "untouched-stream-changed",
            "decompressed_content", "get_plain_content",
-           "filter.empty-array", "compress.stale-decodeparms", "decodeparms.array", "png.avg">>
+           "png.encode_row", "png.encode-avg", "indirect.filter", "indirect.filter-elem", "indirect.parms", "indirect.parms-elem",
+           "indirect.value", "filter.empty-array", "compress.stale-decodeparms", "decodeparms.array", "png.avg">>
 First(bad) == Order[CHOOSE k \in 1..Len(Order) : Order[k] \in bad /\ \A j \in 1..(k - 1) : Order[j] \notin bad]
 
 \* a decode result [ok, data] that should be View(s): "" when it agrees, else the class / clause
@@ -78,7 +79,7 @@ ImplPost(pre, rec, i) ==
            [] rec.op = "set_plain_content" -> ImplSetPlain(pre[i], rec.arg)
            [] rec.op = "compress"          -> ImplCompress(pre[i], post.content, FALSE)
            [] rec.op = "doc_compress"      -> IF pre[i].allows THEN ImplCompress(pre[i], post.content, FALSE) ELSE pre[i]
-           [] OTHER                        -> ImplDecompress(pre[i], FALSE, FALSE, FALSE, FALSE)     \* as the code is since a002bcd (filter.empty-array repaired)
+           [] OTHER                        -> ImplDecompress(pre[i], FALSE, FALSE, FALSE, FALSE, TRUE)     \* as the code is: a002bcd repaired filter.empty-array; indirect.* open
 
 Drift(pre, rec, i) ==
     LET post == StateOf(rec.post[i]) ip == ImplPost(pre, rec, i)
@@ -97,9 +98,18 @@ Named(v, rec) ==
     IF v \in HistClauses /\ (~rec.fresh_same \/ \E i \in 1..Len(rec.post) : rec.post[i].hs)
     THEN "history." \o (IF rec.dk = "none" THEN "earlier-call" ELSE rec.dk) ELSE v
 
+\* op "row": png::encode_row on a random raw row, then decode_row on the result (no stream involved): the encoded row
+\* is what PNG 9 defines and decoding gives the raw row back.  Class png.encode-avg: an Average row that comes out
+\* exactly as the deviation "left + above added in u8" predicts.
+RowIssue(r) ==
+    IF r.enc = PngEncodeRow(r.ft, Min2(r.bpp, Len(r.raw)), r.prev, r.raw) /\ r.dec = r.raw THEN ""
+    ELSE IF r.ft = 3 /\ r.enc = ImplPngEncodeRow(r.ft, r.bpp, r.prev, r.raw, TRUE) THEN "png.encode-avg"
+    ELSE "png.encode_row"
+
 Judge(pre, rec) ==
     LET n == Len(rec.post)
         issues == IF rec.res = "panic" THEN {"panic"}
+                  ELSE IF rec.op = "row" THEN {RowIssue(rec.row)}
                   ELSE IF rec.op = "reset"
                   THEN UNION {QueryIssues(StateOf(rec.post[i]), rec.post[i])
                               \cup {IF LengthOK(StateOf(rec.post[i])) THEN "" ELSE "length"} : i \in 1..n}
@@ -107,7 +117,7 @@ Judge(pre, rec) ==
                   ELSE UNION {StreamIssues(pre, rec, i) : i \in 1..n}
         bad   == issues \ {""}
     IN IF bad # {} THEN Named(First(bad), rec)
-       ELSE IF rec.op # "reset" /\ \E i \in 1..n : Drift(pre, rec, i) THEN "ok-drift"
+       ELSE IF rec.op \notin {"reset", "row"} /\ \E i \in 1..n : Drift(pre, rec, i) THEN "ok-drift"
        ELSE "ok"
 
 Init == l = 1 /\ st = <<>>
